@@ -105,6 +105,15 @@ Example ex_reject_early_closure :
   trace_ok [1] log = false /\ spec_log [1] log = false.
 Proof. vm_compute. auto. Qed.
 
+(* closure reported on a channel nobody has closed (values still to come) *)
+Example ex_reject_closure_without_close :
+  let log := [EInv 1 (OSend 0%nat (VNum 1)); ERes 1 (OSend 0%nat (VNum 1)) RSendOk;
+              EInv 2 (ORecv 0%nat); ERes 2 (ORecv 0%nat) (RRecv true (VNum 1));
+              EInv 3 (ORecv 0%nat); ERes 3 (ORecv 0%nat) (RRecv false VNil);
+              EInv 1 (OClose 0%nat); ERes 1 (OClose 0%nat) RCloseOk] in
+  trace_ok [2] log = false /\ spec_log [2] log = false.
+Proof. vm_compute. auto. Qed.
+
 Example ex_reject_unbuffered_send_alone :
   trace_ok [0] [EInv 1 (OSend 0%nat (VNum 1)); ERes 1 (OSend 0%nat (VNum 1)) RSendOk;
                 EInv 2 (ORecv 0%nat); ERes 2 (ORecv 0%nat) (RRecv true (VNum 1))] = false.
